@@ -181,7 +181,11 @@ class Facts:
         self.threaded = 0
         for b in d["bodies"]:
             if b["kind"] != "promoted" and not b.get("in_test") and not b.get("derived"):
-                self.threaded += thread_known_variants(b, bools=True, budget=40)
+                n1 = thread_known_variants(b, bools=True, budget=40)
+                self.threaded += n1
+                if n1:
+                    # a test behind a test that was just threaded (`if helper(..)? {`)
+                    self.threaded += thread_known_variants(b, bools=True, budget=40)
         self.split_edges = split_shared_switch_targets(d)
         self.raw = d
         self.meta = d["meta"]
